@@ -24,6 +24,8 @@ pub enum Op {
     Drop { slot: u8 },
     Read { slot: u8 },
     Cmp { a: u8, b: u8 },
+    /// slot.clone_from(&other slot)  (both filled): the other way `Clone` overwrites a handle
+    CloneFrom { from: u8, slot: u8 },
     /// UniqueId::now()
     Now,
 }
@@ -94,7 +96,8 @@ impl SchedSim {
             let mut filled = [false; SLOTS];
             for _ in 0..n_ops {
                 let any = filled.iter().any(|f| *f);
-                let w: [u32; 5] = if any { [30, 14, 30, 10, 8] } else { [100, 0, 0, 0, 0] };
+                let two = filled.iter().filter(|f| **f).count() >= 2;
+                let w: [u32; 6] = if any { [30, 14, 30, 10, 8, if two { 8 } else { 0 }] } else { [100, 0, 0, 0, 0, 0] };
                 match r.weighted(&w) {
                     0 => {
                         let slot = r.below(SLOTS as u64) as u8;
@@ -115,7 +118,14 @@ impl SchedSim {
                         filled[slot as usize] = false;
                     }
                     3 => ops.push(Op::Read { slot: pick_filled(r, &filled) }),
-                    _ => ops.push(Op::Cmp { a: pick_filled(r, &filled), b: pick_filled(r, &filled) }),
+                    4 => ops.push(Op::Cmp { a: pick_filled(r, &filled), b: pick_filled(r, &filled) }),
+                    _ => {
+                        let from = pick_filled(r, &filled);
+                        let slot = pick_filled(r, &filled);
+                        if from != slot {
+                            ops.push(Op::CloneFrom { from, slot });
+                        }
+                    }
                 }
             }
             threads.push(ops);
@@ -385,6 +395,34 @@ fn thread_program(tid: usize, ops: Vec<Op>, reg: Arc<Mutex<Registry>>, run_tag: 
                     slots[slot as usize] = Some((h2, c));
                 }
             }
+            Op::CloneFrom { from, slot } => {
+                if from == slot {
+                    continue;
+                }
+                let src = match &slots[from as usize] {
+                    Some((h, c)) => (h.clone(), *c),
+                    None => continue,
+                };
+                // `src.0` is a temporary extra handle of the source content: register it
+                // like any other so that the sharing oracle sees it.
+                register(&reg, 100 + slot, src.1, &src.0);
+                if let Some((mut h, old_c)) = slots[slot as usize].take() {
+                    unregister(&reg, slot, old_c);
+                    sched::harness_yield("op");
+                    h.clone_from(&src.0);
+                    let expected = content_bytes(run_tag, src.1);
+                    if h.data() != expected.as_slice() {
+                        lock(&reg).violations.push((
+                            "content|data-mismatch".into(),
+                            format!("after clone_from the handle exposes other bytes than content {}", src.1),
+                        ));
+                    }
+                    register(&reg, slot, src.1, &h);
+                    slots[slot as usize] = Some((h, src.1));
+                }
+                unregister(&reg, 100 + slot, src.1);
+                drop(src);
+            }
             Op::Drop { slot } => drop_slot(&reg, &mut slots, slot),
             Op::Read { slot } => {
                 if let Some((h, c)) = &slots[slot as usize] {
@@ -513,7 +551,7 @@ impl Engine for SchedSim {
         if property == "C12" {
             "One evaluation is one execution of 2-4 threads calling UniqueId::now() under the seeded scheduler with a clock/RNG fault plan. Counted as distinct non-trivial: distinct (thread programs, schedule actually taken) pairs in which at least one context switch happened while a thread was paused in the middle of an operation (before a synchronisation operation other than the first of that operation).".into()
         } else {
-            "One evaluation is one execution of 2-4 thread programs (new/clone/drop/read/compare over 1-3 contents) against the real SharedString and the real global intern table under the seeded scheduler. Counted as distinct non-trivial: distinct (thread programs, schedule actually taken) pairs in which at least one context switch happened while a thread was paused mid-operation (for example between a handle's final release and its table clean-up, or inside new() between lookup and insert).".into()
+            "One evaluation is one execution of 2-4 thread programs (new/clone/clone_from/drop/read/compare over 1-3 contents) against the real SharedString and the real global intern table under the seeded scheduler. Counted as distinct non-trivial: distinct (thread programs, schedule actually taken) pairs in which at least one context switch happened while a thread was paused mid-operation (for example between a handle's final release and its table clean-up, or inside new() between lookup and insert).".into()
         }
     }
 
